@@ -9,7 +9,7 @@ use identity_credential::validator::{JwtPresentationValidationOptions, JwtPresen
 use identity_document::document::CoreDocument;
 use serde_json::{json, Map, Value};
 
-fn iss_str(v: i64) -> String { match v { 1 | 2 => DIDS[v as usize].to_string(), 3 => "https://holder.example/".to_string(), 1001 => DIDS[1].replace("issuer", "ISSUER"), _ => format!("did:example:nobody{v}") } }
+fn iss_str(v: i64) -> String { match v { 1 | 2 | 5 => DIDS[v as usize].to_string(), 3 => "https://holder.example/".to_string(), 1001 => DIDS[1].replace("issuer", "ISSUER"), _ => format!("did:example:nobody{v}") } }
 fn iss_did(v: i64) -> Option<i64> { match v { 1 | 2 => Some(v), 3 => None, _ => Some(90 + v) } }
 #[derive(Clone, Debug)]
 struct PC { exp: Option<i64>, iss: i64, iat: Option<i64>, nbf: Option<i64>, jti: Option<i64>, aud: Option<i64>, p: P, vp_id: Option<i64>, vp_holder: Option<i64> }
@@ -138,7 +138,7 @@ fn mutations() -> Vec<(&'static str, Vec<fn(&mut Case)>)> {
     ("scope", vec![|c| c.scope = 0, |c| c.scope = 1, |c| c.scope = 2, |c| c.scope = 3, |c| c.scope = 4, |c| c.scope = 5]),
     ("signature", vec![|c| c.sigkey = 11, |c| c.sigkey = 99]),
     ("claims", vec![|c| c.claims_ok = false, |c| { c.claims_ok = false; c.bad = 1; }, |c| { c.claims_ok = false; c.bad = 2; }, |c| { c.claims_ok = false; c.bad = 3; }]),
-    ("iss", vec![|c| c.pc.iss = 2, |c| c.pc.iss = 3, |c| c.pc.iss = 4]),
+    ("iss", vec![|c| c.pc.iss = 2, |c| c.pc.iss = 3, |c| c.pc.iss = 4, |c| c.pc.iss = 5]),
     ("exp", vec![|c| c.pc.exp = None, |c| c.pc.exp = Some(3999), |c| c.pc.exp = Some(4000), |c| c.pc.exp = Some(4001), |c| c.pc.exp = Some(TS_MAX), |c| c.pc.exp = Some(TS_MAX + 1), |c| c.pc.exp = Some(TS_MIN - 1)]),
     ("issuance", vec![|c| c.pc.nbf = None, |c| c.pc.nbf = Some(1999), |c| c.pc.nbf = Some(2000), |c| c.pc.nbf = Some(2001), |c| { c.pc.nbf = None; c.pc.iat = Some(2000); }, |c| { c.pc.nbf = None; c.pc.iat = Some(2001); }, |c| c.pc.iat = Some(2001), |c| { c.pc.nbf = Some(2001); c.pc.iat = Some(5); },
       |c| c.pc.nbf = Some(TS_MIN), |c| c.pc.nbf = Some(TS_MIN - 1), |c| c.pc.nbf = Some(TS_MAX + 1), |c| { c.pc.nbf = None; c.pc.iat = Some(TS_MIN - 1); }, |c| c.pc.iat = Some(TS_MAX + 1)]),
